@@ -673,7 +673,11 @@ add("func", "searchsorted",
     plain=V(lambda g: C(QA("X", np.sort(g.distinct((g.r.randint(1, 6),)))),
                         QA("X", g.distinct(g.shape(0, 2)))), BARE),
     side=V(lambda g: C(QA("X", np.sort(g.distinct((5,)))), QA("X", g.distinct(())), side="right"),
-           BARE))
+           BARE),
+    # probes EQUAL to elements of the searched array (same unit on both sides, so the ties are exact): only
+    # there does `side` decide the answer
+    side_ties=V(lambda g: (lambda a: C(QA("X", a), QA("X", a[[0, 2, 4]].copy()), side="right"))(
+        np.sort(g.distinct((5,)))), BARE, assign="same", err=False, offset=False))
 
 
 def _close_build(with_atol, qatol):
@@ -1108,7 +1112,11 @@ M("clip",
 M("searchsorted",
   plain=V(lambda g: C(QA("X", np.sort(g.distinct((g.r.randint(1, 6),)))),
                       QA("X", g.distinct(g.shape(0, 1)))), BARE),
-  side=V(lambda g: C(QA("X", np.sort(g.distinct((5,)))), QA("X", g.distinct(())), "right"), BARE))
+  side=V(lambda g: C(QA("X", np.sort(g.distinct((5,)))), QA("X", g.distinct(())), "right"), BARE),
+  side_ties=V(lambda g: (lambda a: C(QA("X", a), QA("X", a[[0, 2, 4]].copy()), "right"))(
+      np.sort(g.distinct((5,)))), BARE, assign="same", err=False, offset=False),
+  side_kw_ties=V(lambda g: (lambda a: C(QA("X", a), QA("X", a[[1, 3]].copy()), side="right"))(
+      np.sort(g.distinct((5,)))), BARE, assign="same", err=False, offset=False))
 
 
 def _put_inv(npmod, a, ind, v, **kw):
